@@ -42,13 +42,117 @@ fn canon_sets(ng: &NormGraph, sets: &[HashSet<String>]) -> Result<BTreeSet<BTree
     Ok(out)
 }
 
+/// large graphs: component functions against linear-time oracles (union-find, Kosaraju), inside the
+/// default (16-thread) rayon context and inside a pool of 2
+fn check_big(case: &CompCase) -> Outcome {
+    let mut out = Outcome::new();
+    let mut ng = case.g.norm();
+    // make several components: drop the ring edges of every 7th node
+    let n = ng.n;
+    // about a dozen large components plus a few small ones (the library's component functions
+    // cost O(n x components), so thousands of components would take minutes)
+    let block = (n / 12).max(97);
+    ng.edges.retain(|(i, j, _)| (i / block) == (j / block) && !(i % block < 3 && j % block >= 3));
+    let graph = ng.build();
+    let index: std::collections::HashMap<&str, usize> = ng.names.iter().enumerate().map(|(i, s)| (s.as_str(), i)).collect();
+    let weak = weak_labels(&ng);
+    let strong = strong_labels(&ng);
+    let count = |l: &Vec<usize>| l.iter().collect::<BTreeSet<_>>().len();
+    let check_sets = |name: &str, sets: &Vec<HashSet<String>>, labels: &Vec<usize>, out: &mut Outcome| {
+        let mut placed = 0usize;
+        let mut seen_labels = BTreeSet::new();
+        for s in sets {
+            if s.is_empty() {
+                out.fail(format!("{}/partition/empty_set/large_graph", name), "empty set");
+                return;
+            }
+            let mut lab = None;
+            for x in s {
+                let Some(i) = index.get(x.as_str()) else {
+                    out.fail(format!("{}/partition/foreign_name/large_graph", name), x.clone());
+                    return;
+                };
+                match lab {
+                    None => lab = Some(labels[*i]),
+                    Some(l) if l != labels[*i] => {
+                        out.fail(format!("{}/classes/merged/large_graph", name), format!("a set mixes two components (n = {})", labels.len()));
+                        return;
+                    }
+                    _ => {}
+                }
+            }
+            placed += s.len();
+            if !seen_labels.insert(lab.unwrap()) {
+                out.fail(format!("{}/classes/split/large_graph", name), format!("two sets for one component (n = {})", labels.len()));
+                return;
+            }
+        }
+        if placed != labels.len() || seen_labels.len() != count(labels) {
+            out.fail(format!("{}/partition/node_in_no_set/large_graph", name), format!("sets cover {} of {} nodes, {} of {} components", placed, labels.len(), seen_labels.len(), count(labels)));
+        }
+    };
+    for threads in [16usize, 2] {
+        let pool = crate::props::c17::pool_of(threads);
+        out.api_calls += 3;
+        if ng.directed {
+            match guard(|| pool.install(|| components::weakly_connected_components(&graph))) {
+                Ok(Ok(s)) => check_sets("weakly_connected_components", &s, &weak, &mut out),
+                Ok(Err(e)) => out.fail("weakly_connected_components/error/large_graph", kind_of(&e)),
+                Err(p) => out.fail(format!("weakly_connected_components/panic/{}", panic_class(&p)), p),
+            }
+            // the library's SCC routine is quadratic in the number of components (it rebuilds a
+            // hash set per component), so it is only exercised up to 4000 nodes
+            if n <= 4000 {
+                match guard(|| pool.install(|| components::strongly_connected_components(&graph))) {
+                    Ok(Ok(s)) => check_sets("strongly_connected_components", &s, &strong, &mut out),
+                    Ok(Err(e)) => out.fail("strongly_connected_components/error/large_graph", kind_of(&e)),
+                    Err(p) => out.fail(format!("strongly_connected_components/panic/{}", panic_class(&p)), p),
+                }
+            }
+        } else {
+            match guard(|| pool.install(|| components::connected_components(&graph))) {
+                Ok(Ok(s)) => check_sets("connected_components", &s, &weak, &mut out),
+                Ok(Err(e)) => out.fail("connected_components/error/large_graph", kind_of(&e)),
+                Err(p) => out.fail(format!("connected_components/panic/{}", panic_class(&p)), p),
+            }
+            match guard(|| pool.install(|| components::number_of_connected_components(&graph))) {
+                Ok(Ok(c)) => {
+                    out.check(c == count(&weak), "number_of_connected_components/eq_oracle/count/large_graph", || format!("{} vs {}", c, count(&weak)));
+                }
+                Ok(Err(e)) => out.fail("number_of_connected_components/error/large_graph", kind_of(&e)),
+                Err(p) => out.fail(format!("number_of_connected_components/panic/{}", panic_class(&p)), p),
+            }
+        }
+        // equal-size partitions place every node exactly once (quadratic queue: up to 5000 nodes)
+        let k = 1 + case.k as usize % 9;
+        if n <= 5000 {
+        match guard(|| pool.install(|| components::bfs_equal_size_partitions(&graph, k))) {
+            Err(p) => out.fail(format!("bfs_equal_size_partitions/panic/{}", panic_class(&p)), p),
+            Ok(parts) => {
+                let total: usize = parts.iter().map(|p| p.len()).sum();
+                let distinct: HashSet<&String> = parts.iter().flatten().collect();
+                out.check(parts.len() == k && total == n && distinct.len() == n, "bfs_equal_size_partitions/parts/node_missing_or_twice/large_graph", || format!("{} parts, {} placements, {} distinct of {}", parts.len(), total, distinct.len(), n));
+                let bound = n / k + 1;
+                out.check(parts.iter().all(|p| p.len() <= bound), "bfs_equal_size_partitions/parts/size_bound/large_graph", || format!("bound {}", bound));
+            }
+        }
+        }
+        if !out.failures.is_empty() {
+            break;
+        }
+    }
+    out.class(format!("large_graph_n_above_{}", if n > 20000 { 20000 } else if n > 5000 { 5000 } else if n > 1000 { 1000 } else { 300 }));
+    out.nontrivial = count(&weak) >= 2;
+    out
+}
+
 impl Prop for C10 {
     type Case = CompCase;
     fn id(&self) -> &'static str {
         "C10"
     }
     fn rule(&self) -> String {
-        "graphs of all 8 kinds, n in 0..=12 (some 13..=30, and one case in 450 at a size around a power of two up to 255), sparse random edges plus shapes stressed towards many small components, long cycles, nested strongly connected components (cycle of cycles), DAGs, isolated nodes, self-loops and parallel edges; shuffled names. Oracle: boolean transitive closure of the edge list (Floyd-Warshall); connected/weak components = classes of mutual reachability ignoring direction, strong = mutual reachability; results compared as sets of sets (disjoint, non-empty, covering). node_connected_component and breadth_first_search from every node, bfs_equal_size_partitions for k = 1 + k%(n+2), WrongMethod on the other kind. Every call is repeated 3 times in-process (hash iteration order differs per call). Exhaustive block: all directed graphs on <= 3 nodes and undirected on <= 4. Non-trivial = >= 2 components with one of size >= 3 (for directed graphs additionally a node reachable from a non-trivial SCC but outside it); distinct = distinct serialised case.".into()
+        "graphs of all 8 kinds, n in 0..=12 (some 13..=30, one case in 450 at a size around a power of two up to 255, and one case in 9000 with a procedurally generated graph of 300..40000 nodes checked against union-find / Kosaraju oracles in pools of 16 and 2 threads), sparse random edges plus shapes stressed towards many small components, long cycles, nested strongly connected components (cycle of cycles), DAGs, isolated nodes, self-loops and parallel edges; shuffled names. Oracle: boolean transitive closure of the edge list (Floyd-Warshall); connected/weak components = classes of mutual reachability ignoring direction, strong = mutual reachability; results compared as sets of sets (disjoint, non-empty, covering). node_connected_component and breadth_first_search from every node, bfs_equal_size_partitions for k = 1 + k%(n+2), WrongMethod on the other kind. Every call is repeated 3 times in-process (hash iteration order differs per call). Exhaustive block: all directed graphs on <= 3 nodes and undirected on <= 4. Non-trivial = >= 2 components with one of size >= 3 (for directed graphs additionally a node reachable from a non-trivial SCC but outside it); distinct = distinct serialised case.".into()
     }
     fn assumptions(&self) -> Vec<String> {
         vec!["'bounded size' for bfs_equal_size_partitions is read as floor(n/k)+1 per part, the bound documented by the function".into()]
@@ -77,12 +181,17 @@ impl Prop for C10 {
         // sizes around powers of two and up to the largest representable one (bit sets, chunked
         // queues and similar size-dependent code would switch behaviour there)
         let boundary = proptest::sample::select(vec![31u8, 32, 33, 47, 63, 64, 65, 96, 127, 128, 129, 191, 192, 193, 254, 255]).prop_flat_map(|n| graph_strategy(&ALL_KINDS, n, n, sparse, &[0], 5));
-        (prop_oneof![300 => a, 100 => b, 50 => c, 1 => boundary], any::<u8>()).prop_map(|(g, k)| CompCase { g, k }).boxed()
+        // procedurally generated graphs of 300..40000 nodes (names unrelated to insertion order)
+        let big = big_graph_strategy(&[0, 1], 300, 40000, &[0]);
+        (prop_oneof![6000 => a, 2000 => b, 1000 => c, 20 => boundary, 1 => big], any::<u8>()).prop_map(|(g, k)| CompCase { g, k }).boxed()
     }
     fn random_cases(&self, tier: Tier) -> u32 {
         tier.pick(300_000, 3_000_000)
     }
     fn check(&self, case: &CompCase) -> Outcome {
+        if case.g.big_n > 0 {
+            return check_big(case);
+        }
         let mut out = Outcome::new();
         let ng = case.g.norm();
         let graph = ng.build();
